@@ -287,6 +287,19 @@ def real_preparesig(req):
     return core.run_real(specifiers.signature, d)
 
 
+def real_retrievebound(req):
+    """signatures.signature of the bound method of a function whose stored __signature__ is the given (upgraded) signature,
+    provenance included - what modifiers.annotate, or `f.__signature__ = sigtools.signature(g)`, leave on a function"""
+    import types as _types
+    d = req[1]
+    f0 = core.make_def(tuple(d['params']), body='return None  # retrievebound')
+    f = _types.FunctionType(f0.__code__, f0.__globals__, f0.__name__, f0.__defaults__, f0.__closure__)
+    f.__kwdefaults__ = dict(f0.__kwdefaults__) if f0.__kwdefaults__ else None
+    f.__signature__ = core.mk_sig(d)
+    cls = type('C', (object,), {'m': f})
+    return core.run_real(signatures.signature, cls().m)
+
+
 def real_names(req):
     op = req[0]
     try:
@@ -352,3 +365,4 @@ def real_partialsig(req):
 
 OPS['partialsig'] = real_partialsig
 OPS['preparesig'] = real_preparesig
+OPS['retrievebound'] = real_retrievebound
